@@ -11,7 +11,7 @@
    forest shape and depth, shared names, late records), every filter, every label list.          *)
 From Coq Require Import List NArith ZArith Bool.
 Import ListNotations.
-Require Import MV.C17.Model MV.C17.Spec MV.C17.Exec MV.C17.ProofsMap MV.C17.Proofs MV.C17.ProofsThread MV.C17.ProofsTop MV.C17.ExecProofs.
+Require Import MV.C17.Model MV.C17.Spec MV.C17.Exec MV.C17.ProofsMap MV.C17.Proofs MV.C17.ProofsThread MV.C17.ProofsTop MV.C17.ProofsFrame MV.C17.ExecProofs.
 Open Scope N_scope.
 
 (* how program-level runs decompose into the pieces the clauses talk about *)
@@ -92,6 +92,16 @@ Theorem C17_thread_local_result : forall (admitf : str -> label -> bool) (h1 h2 
   /\ forall n, mget n (snd (enhance_key admitf mname own (cur_map (m_state [] h1) cur1)))
              = mget n (snd (enhance_key admitf mname own (cur_map (m_state [] h2) cur2))).
 Proof. exact thread_local_result. Qed.
+
+(* frame facts: enter / exit / drop / emit never change a stored map; a step of another thread
+   (enter, exit, emit) leaves thread t's span stack alone *)
+Theorem C17_control_events_keep_maps : forall r st e,
+  is_control e = true -> fst (m_step st (snd (reg_step r e))) = st.
+Proof. exact control_events_keep_maps. Qed.
+
+Theorem C17_other_thread_step_keeps_stack : forall r t e,
+  own_or_neutral t e = false -> stack_of t (fst (reg_step r e)) = stack_of t r.
+Proof. exact other_thread_step_keeps_stack. Qed.
 
 (* the executable property and the model *)
 Theorem C17_spec_ok_on_model : forall c, spec_ok c (run_case c) = true.
